@@ -66,11 +66,12 @@ func (o *ObsC07) begin(x *Exec, snap *Snapshot) {
 }
 
 func (o *ObsC07) check(x *Exec) *vcore.Failure {
+	// sample the sizes first: the tables may be unreadable at this step (a parked task holds the cache lock), the sizes never are
+	o.sample(x)
 	alloc, _, ok := x.W.TryTables()
 	if !ok {
 		return nil
 	}
-	o.sample(x)
 	for _, p := range o.pools(x) {
 		if o.undef[p] {
 			continue
